@@ -80,6 +80,17 @@ class StandardGeometry(BaseGeometry):
         z1 = rays.z + t1 * rays.N
         z2 = rays.z + t2 * rays.N
 
+        # the sag equation describes one branch of the conic only (near half
+        # of the ellipsoid, near sheet of the hyperboloid), on which
+        # sqrt(1 - (1 + k) r^2 / R^2) = 1 - (1 + k) z / R is not negative
+        with np.errstate(invalid='ignore'):
+            t1 = np.where(1 - (1 + self.k) * z1 / self.radius < -1e-10,
+                          np.inf, t1)
+            t2 = np.where(1 - (1 + self.k) * z2 / self.radius < -1e-10,
+                          np.inf, t2)
+            z1 = rays.z + t1 * rays.N
+            z2 = rays.z + t2 * rays.N
+
         # take intersection closest to z = 0 (i.e., vertex of geometry)
         t = np.where(np.abs(z1) <= np.abs(z2), t1, t2)
 
